@@ -38,7 +38,7 @@ Theorem C05_strict_partial :
     no_basemodel own = true ->
     accepts n cls (schema_enums S) (AClass (pascal_s name)) j = true ->
     covers n cls (AClass (pascal_s name)) j = true ->
-    exists fc0, forall fc, fc >= fc0 -> conf_op_gen lax_leaf false fc S frs root sels j = true.
+    exists fc0, forall fc, fc >= fc0 -> conf_op_gen lax_leaf false true fc S frs root sels j = true.
 Proof. exact op_strict. Qed.
 Print Assumptions C05_strict_partial.
 
@@ -50,7 +50,7 @@ Theorem C05_strict_partial_rejects :
     all_classes fuel C S frs (DOp kind name [] sels) = Ok cls ->
     op_ok g true C S frs root sels = true -> sels_strict gs C S frs false root sels = true ->
     no_basemodel own = true ->
-    (forall fc, conf_op_gen lax_leaf false fc S frs root sels j = false) ->
+    (forall fc, conf_op_gen lax_leaf false true fc S frs root sels j = false) ->
     covers n cls (AClass (pascal_s name)) j = true ->
     accepts n cls (schema_enums S) (AClass (pascal_s name)) j = false.
 Proof. exact op_strict_rejects. Qed.
@@ -69,7 +69,7 @@ Theorem C05_strict_partial_mixins :
     n >= F + g + 2 ->
     accepts n cls (schema_enums S) (AClass (pascal_s name)) j = true ->
     covers n cls (AClass (pascal_s name)) j = true ->
-    exists fc0, forall fc, fc >= fc0 -> conf_op_gen lax_leaf false fc S frs root sels j = true.
+    exists fc0, forall fc, fc >= fc0 -> conf_op_gen lax_leaf false true fc S frs root sels j = true.
 Proof. exact op_strict_mix. Qed.
 Print Assumptions C05_strict_partial_mixins.
 
@@ -83,7 +83,7 @@ Theorem C05_object_strict :
     accepts n cs (schema_enums S) (AClass cn) (JObj kv) = true ->
     covers n cs (AClass cn) (JObj kv) = true ->
     exists fc0, forall fc, fc >= fc0 ->
-      conf_obj_gen false (conf_val_gen lax_leaf false fc S frs) S tn
+      conf_obj_gen false (conf_val_gen lax_leaf false true fc S frs) S tn
                    (collect_scopes fc S frs tn [(false, sels)]) kv = true.
 Proof. exact obj_strict. Qed.
 Print Assumptions C05_object_strict.
@@ -92,7 +92,7 @@ Print Assumptions C05_object_strict.
    response, and on non-null values the generated scalar annotation accepts exactly lax_leaf *)
 Theorem C05_lax_contains_conformant :
   forall fc S frs root sels j,
-    conf_op fc S frs root sels j = true -> conf_op_gen lax_leaf false fc S frs root sels j = true.
+    conf_op fc S frs root sels j = true -> conf_op_gen lax_leaf false true fc S frs root sels j = true.
 Proof. exact conf_op_lax. Qed.
 Print Assumptions C05_lax_contains_conformant.
 
@@ -220,7 +220,7 @@ Example C05_partial_hypotheses_satisfiable :
      accepts 11 cls (schema_enums SY) (AClass (pascal_s "GetPeople")) j = true /\
      covers 11 cls (AClass (pascal_s "GetPeople")) j = true /\
      conf_op 10 SY [] "Query" selsY j = false /\
-     conf_op_gen lax_leaf false 10 SY [] "Query" selsY j = true) /\
+     conf_op_gen lax_leaf false true 10 SY [] "Query" selsY j = true) /\
     (* corruptions are rejected *)
     accepts 11 cls (schema_enums SY) (AClass (pascal_s "GetPeople"))
             (userY (JStr "User") JNull (JObj [("city", JStr "X")])) = false /\
@@ -316,6 +316,7 @@ Example C05_interface_self_typename_accepted :
     all_classes 20 C0 SI [] (DOp "query" "Q" [] selsI) = Ok cls /\
     let j := JObj [("named", JObj [("__typename", JStr "Named"); ("name", JStr "n")])] in
     conf_op 20 SI [] "Query" selsI j = false /\
-    conf_op_gen lax_leaf false 20 SI [] "Query" selsI j = false /\
+    conf_op_gen lax_leaf false false 20 SI [] "Query" selsI j = false /\
+    conf_op_gen lax_leaf false true 20 SI [] "Query" selsI j = true /\
     accepts 20 cls (schema_enums SI) (AClass "Q") j = true /\ covers 20 cls (AClass "Q") j = true.
 Proof. eexists. split; [vm_compute; reflexivity|]. vm_compute. repeat split. Qed.
